@@ -37,9 +37,10 @@ Vocabulary (definitions in `LoomVerif/Proofs/C07Rw.lean`, `C07Handover.lean`, `C
 
 FINDINGS recorded here: F9 (`Lock.blocks_try_acquirers`): a thread whose pending operation is a
 `try_lock` is disabled by another thread's acquisition although the reference semantics never
-disables a `try_lock`.  `Lock.release_wakes`: a release sets EVERY other thread with a pending
-operation on the lock `runnable false`, whatever its previous state (this is loom's behaviour; see
-finding F18 in `Props/C08.lean` for the token it destroys).
+disables a `try_lock`.  `Lock.release_wakes`: a release wakes (`Thread.wake`) every other thread with a
+pending operation on the lock: a BLOCKED one becomes `runnable false`, any other state is left alone (since
+the repair of finding F18; before it every such thread was set `runnable false` whatever its state, and an
+unpark token was destroyed — see `Release.keeps_token` in `Props/C08.lean`).
 -/
 import LoomVerif.Proofs.SyncExamples
 
@@ -273,10 +274,10 @@ theorem RwLock.exclusion :
 /-! ## 3. `Lock.release_wakes` -/
 
 /-- `Mutex::release_lock` by the active thread: the mutex is free, its clock becomes
-`old ⊔ released ⊔ causality` of the releasing thread (`Sync.store … .rel`), and EVERY other thread
-whose pending operation is on the mutex is set `runnable false` — whatever its previous state
-(blocked, yielded, runnable with or without an unpark token, terminated): this is exactly loom's
-behaviour.  All other threads and objects are unchanged.  (When no thread is active — "execution
+`old ⊔ released ⊔ causality` of the releasing thread (`Sync.store … .rel`), and every other thread
+whose pending operation is on the mutex is woken (`Thread.wake`: `runnable false` if it is BLOCKED, left
+alone in any other state — yielded, runnable with or without an unpark token, terminated; repair of finding
+F18).  All other threads and objects are unchanged.  (When no thread is active — "execution
 has deadlocked" — only the lock flag is cleared.) -/
 theorem Lock.release_wakes (w : World) (o : Nat) (m : MutexSt)
     (h : w.exec.objs[o]? = some (.mutex m)) :
@@ -287,7 +288,7 @@ theorem Lock.release_wakes (w : World) (o : Nat) (m : MutexSt)
           threads := { w.exec.threads with threads :=
             (w.exec.threads.threads.mapIdx fun i th =>
               if i = w.tid then th
-              else if th.operation.any (fun op => op.obj == o) then th.setRunnable else th) } } }) ∧
+              else if th.operation.any (fun op => op.obj == o) then th.wake else th) } } }) ∧
     (w.ths.isActive = false →
       w.releaseLock o = .ok (w.setObj o (.mutex { m with lock := none }))) ∧
     (m.sync.store w.ths.activeT.released w.ths.caus .rel).hb =
@@ -304,11 +305,11 @@ theorem RwLock.release_write_wakes (w : World) (o : Nat) (s : RwSt)
           threads := { w.exec.threads with threads :=
             (w.exec.threads.threads.mapIdx fun i th =>
               if i = w.tid then th
-              else if th.operation.any (fun op => op.obj == o) then th.setRunnable else th) } } } :=
+              else if th.operation.any (fun op => op.obj == o) then th.wake else th) } } } :=
   releaseWrite_eq h
 
 /-- `release_read_lock`: the reader is removed and the clock released; ONLY when the reader set
-becomes empty the lock becomes free and the pending threads are made runnable; if the lock is not
+becomes empty the lock becomes free and the pending threads are woken (`Thread.wake`); if the lock is not
 read-locked: "invalid internal loom state". -/
 theorem RwLock.release_read (w : World) (o : Nat) (s : RwSt)
     (h : w.exec.objs[o]? = some (.rwlock s)) :
@@ -320,7 +321,7 @@ theorem RwLock.release_read (w : World) (o : Nat) (s : RwSt)
             threads := { w.exec.threads with threads :=
               (w.exec.threads.threads.mapIdx fun i th =>
                 if i = w.tid then th
-                else if th.operation.any (fun op => op.obj == o) then th.setRunnable
+                else if th.operation.any (fun op => op.obj == o) then th.wake
                 else th) } } }) ∧
     (∀ rs, s.lock = some (.read rs) → rs.filter (· != w.tid) ≠ [] →
       w.releaseRead o = .ok
